@@ -39,9 +39,18 @@ pub fn pause_release(n: u64) {
     PAUSE.1.notify_all();
 }
 
+thread_local! {
+    static PAUSE_ME: std::cell::Cell<bool> = const { std::cell::Cell::new(false) };
+}
+
+/// Only threads that opted in are held at pause points.
+pub fn pause_this_thread(on: bool) {
+    PAUSE_ME.with(|p| p.set(on));
+}
+
 #[inline]
 pub fn pause_point(name: &str) {
-    if PAUSE_ON.load(Ordering::Relaxed) {
+    if PAUSE_ON.load(Ordering::Relaxed) && PAUSE_ME.with(|p| p.get()) {
         let mut g = PAUSE.0.lock();
         if g.2 != name {
             return;
